@@ -122,7 +122,7 @@ def items(tier):
                 out.append((mode, Config("ArrayBox.op." + oname, "SWEEP operator %s" % oname, call, [R(2, 2)], 0, tags=("sweep",))))
     # explicit guards driven with the options that should trip them (and their neighbours that should not): outcome must be
     # 'raises' or a correct derivative
-    guard_prims = {"rfft", "irfft", "rfft2", "irfft2", "rfftn", "irfftn", "fft2", "fftn", "ifft2", "ifftn", "rollaxis", "sort", "partition", "diagonal", "norm", "pad", "gradient", "einsum"}
+    guard_prims = {"rfft", "irfft", "rfft2", "irfft2", "rfftn", "irfftn", "fft2", "fftn", "ifft2", "ifftn", "rollaxis", "sort", "partition", "diagonal", "norm", "pad", "gradient", "einsum", "linspace", "rot90", "trace", "repeat", "roll", "clip", "where"}
     for c in grid.real_grid(tier, families=("fft", "shape", "linalg", "contract")):
         if c.prim in guard_prims:
             g = Config(c.prim, "GUARD " + c.label, c.call, c.args, c.argnum, tags=("guard",))
